@@ -43,6 +43,8 @@ class State:
         self.nfiles = 2          # number of source files that contain commands (1..6)
         self.proj_rel = PROJ_REL   # project path relative to the sandbox root
         self.out_rel = OUT_REL     # output path relative to the sandbox root (normalised)
+        self.transform = set()     # C13 semantics-preserving source transformations: noise decoys reorder moved split
+        self.verbose_cfg = False
         self.out_cfg = None        # spelling of the output path in the configuration (None = "./" + out_rel)
         self.proj_cfg = None
 
@@ -165,6 +167,30 @@ pub fn tick(window: tauri::Window) {
     }
     if a["type_mapping"]:
         cfg["type_mappings"] = {"PathBuf": "string"}
+    T = st.transform
+    if "reorder" in T:
+        models = reorder_items(models)
+        a_rs = reorder_items(a_rs)
+        b_rs = reorder_items(b_rs)
+        ev_rs = reorder_items(ev_rs)
+    if "moved" in T:
+        # move the save_address command from a.rs to b.rs and the Address struct out of models.rs
+        a_items = split_rust_items(a_rs)
+        mv = [x for x in a_items if "fn save_address" in x]
+        a_rs = "".join(x for x in a_items if "fn save_address" not in x)
+        b_rs = b_rs + "\n" + "".join(mv)
+        m_items = split_rust_items(models)
+        addr = [x for x in m_items if "pub struct Address" in x]
+        models = "".join(x for x in m_items if "pub struct Address" not in x)
+        moved_addr = "use serde::{Deserialize, Serialize};\n\n" + "".join(addr)
+    if "noise" in T:
+        models = add_noise(models)
+        a_rs = add_noise(a_rs)
+        b_rs = add_noise(b_rs)
+        ev_rs = add_noise(ev_rs)
+    if "decoys" in T:
+        models += DECOYS_MODELS
+        a_rs += DECOYS_CMDS
     if st.nfiles == 1:
         a_rs = a_rs + "\n" + b_rs.replace("use crate::models::*;\n", "")
         b_rs = "// moved into a.rs\n"
@@ -183,7 +209,111 @@ pub fn tick(window: tauri::Window) {
         st.proj_rel + "/README.md": "not rust\n",
         "typegen.json": json.dumps(cfg, indent=1, sort_keys=True),
     })
+    if "moved" in T:
+        files[st.proj_rel + "/src/zz_address.rs"] = moved_addr
+    if "split" in T:
+        m_items = split_rust_items(files[st.proj_rel + "/src/models.rs"])
+        half = len(m_items) // 2
+        head = m_items[0] if m_items and m_items[0].lstrip().startswith("use ") else ""
+        files[st.proj_rel + "/src/models.rs"] = "".join(m_items[:half])
+        files[st.proj_rel + "/src/aa_models_part2.rs"] = "use serde::{Deserialize, Serialize};\nuse std::path::PathBuf;\n\n" + "".join(m_items[half:])
+    if st.verbose_cfg:
+        cfg["verbose"] = True
+        files["typegen.json"] = json.dumps(cfg, indent=1, sort_keys=True)
     return files
+
+
+DECOYS_MODELS = """
+// decoys: none of this is a serde type or a command
+pub struct NotSerde {
+    pub hidden: u64,
+}
+
+#[derive(Debug, Clone)]
+pub enum AlsoNotSerde {
+    A,
+    B,
+}
+
+pub const LIMIT: usize = 10;
+
+pub type Alias = Vec<u8>;
+
+impl NotSerde {
+    #[tauri::command]
+    pub fn method_not_a_command(&self, x: i32) -> i32 {
+        x
+    }
+}
+
+pub trait Shape {
+    fn area(&self) -> f64;
+}
+"""
+
+DECOYS_CMDS = """
+pub fn not_a_command(a: u8) -> u8 {
+    a
+}
+
+async fn private_helper() {}
+
+mod inner {
+    pub fn nested_helper() {}
+}
+
+#[allow(dead_code)]
+static COUNTER: std::sync::atomic::AtomicUsize = std::sync::atomic::AtomicUsize::new(0);
+"""
+
+
+def split_rust_items(src):
+    """split a source file into top-level items (an item starts at column 0 with an attribute, a doc
+    comment or an item keyword and lasts until the next one); leading `use` lines form the first chunk"""
+    lines = src.split("\n")
+    chunks = []
+    cur = []
+    started = False
+
+    def is_start(i):
+        l = lines[i]
+        if not l or l[0] in " \t}":
+            return False
+        if l.startswith(("#[", "///", "//")):
+            # attribute / comment belongs to the following item: start only if previous line is blank or '}'
+            return i == 0 or lines[i - 1].strip() in ("", "}")
+        if re.match(r"(pub(\([a-z]+\))? )?(async )?(fn|struct|enum|mod|impl|const|static|type|trait|use)\b", l):
+            return i == 0 or not lines[i - 1].startswith(("#[", "///"))
+        return False
+    for i, l in enumerate(lines):
+        if is_start(i) and cur and not (l.startswith("use ") and all(x.startswith("use ") or not x.strip() for x in cur)):
+            chunks.append("\n".join(cur) + "\n")
+            cur = []
+        cur.append(l)
+    if cur:
+        chunks.append("\n".join(cur))
+    return chunks
+
+
+def reorder_items(src):
+    items = split_rust_items(src)
+    if len(items) < 3:
+        return src
+    head, rest = items[0], items[1:]
+    if not head.lstrip().startswith("use "):
+        head, rest = "", items
+    rest = [r if r.endswith("\n") else r + "\n" for r in rest]
+    return head + "\n".join(reversed(rest))
+
+
+def add_noise(src):
+    out = ["// noise: a leading comment\n", "\n"]
+    for l in src.split("\n"):
+        out.append(l + "   " if l.strip().endswith("{") else l)
+        out.append("\n")
+        if l.strip() == "}":
+            out.append("\n/* block comment between items */\n\n\n")
+    return "".join(out)
 
 
 def foreign_files(out_rel, rich=False):
